@@ -603,7 +603,8 @@ pub fn op_strategy(sp: OpSpace) -> BoxedStrategy<Op> {
     let slack = prop_oneof![3 => Just(0u8), 1 => 0u8..=40];
     let process = (path.clone(), slack.clone(), slack.clone(), mask.clone()).prop_map(|(path, slack_in, slack_out, mask)| Op::Process { path, slack_in, slack_out, mask });
     let partial = (path, prop_oneof![1 => Just(None), 2 => any::<u16>().prop_map(Some)], slack, mask).prop_map(|(path, frac, slack_out, mask)| Op::Partial { path, frac, slack_out, mask });
-    let ratio = (prop_oneof![1 => Just(-1.0f64), 1 => Just(1.0f64), 4 => -1.0f64..=1.0], any::<bool>(), any::<bool>()).prop_map(|(pos, relative, ramp)| Op::SetRatio { pos, relative, ramp });
+    // range ends, back to exactly the original ratio, anywhere in between
+    let ratio = (prop_oneof![1 => Just(-1.0f64), 1 => Just(1.0f64), 1 => Just(0.0f64), 4 => -1.0f64..=1.0], any::<bool>(), any::<bool>()).prop_map(|(pos, relative, ramp)| Op::SetRatio { pos, relative, ramp });
     let chunk = prop_oneof![1 => Just(0u16), 1 => Just(65535u16), 3 => any::<u16>()].prop_map(|frac| Op::SetChunk { frac });
     // setter calls that must be rejected (out of range / zero / too large) and leave everything unchanged
     let rejected = prop_oneof![
